@@ -32,6 +32,7 @@ type c12Case struct {
 	Pool  []*uni.Node `json:"pool"`
 	K     int         `json:"k"`
 	Calls int         `json:"calls"`
+	Big   int         `json:"big,omitempty"` // number of elements of the filtered container (0: the pool itself)
 }
 
 // raceLogSize sums the sizes of the race detector's log files (GORACE log_path).
@@ -96,7 +97,15 @@ func c12Run(t failer, c *c12Case) {
 		data[i] = p.Interface()
 		want[i] = c12One(seqEv, data[i])
 	}
-	cont := &uni.Node{T: uni.SliceOf(c.Pool[0].T), Elems: c.Pool}
+	elems := c.Pool
+	if c.Big > 0 {
+		// a container far larger than the pool (size-dependent code paths in Execute)
+		elems = make([]*uni.Node, c.Big)
+		for i := range elems {
+			elems[i] = c.Pool[i%len(c.Pool)]
+		}
+	}
+	cont := &uni.Node{T: uni.SliceOf(c.Pool[0].T), Elems: elems}
 	contVal := cont.Interface()
 	seqF, _ := bexpr.CreateFilter(text)
 	wantOut, wantErr, _ := safeExecute(seqF, contVal)
@@ -266,6 +275,10 @@ func TestC12_Shared(t *testing.T) {
 		rend.MaxParen = 1
 		text, _ := rend.Render(e)
 		c := &c12Case{EvalCase: *newEvalCase(text, e, pool[0], o), Pool: pool, K: rapid.IntRange(2, 8).Draw(t, "k"), Calls: rapid.IntRange(1, 6).Draw(t, "calls")}
+		if rapid.IntRange(0, 5).Draw(t, "bigContainer") == 0 {
+			c.Big = []int{64, 65, 256, 257, 300, 1025}[rapid.IntRange(0, 5).Draw(t, "bigSize")]
+			c.Calls = 3 + c.Calls%4 // Execute runs on every third call
+		}
 		c12Run(t, c)
 		r.Case(text+"\x00"+pool[0].String()+strconv.Itoa(c.K)+"/"+strconv.Itoa(c.Calls), hasMatches || hasQuant,
 			map[string]string{"expr": strconv.QuoteToASCII(text), "pool[0]": pool[0].String(), "goroutines": strconv.Itoa(c.K), "calls": strconv.Itoa(c.Calls)},
